@@ -2,6 +2,7 @@
 import Spake2Model.Py
 import Spake2Model.Gen.Consts
 import Spake2Model.Gen.Ed25519Arith
+import Spake2Model.Gen.EdShape
 import Spake2Model.Gen.IntGroupArith
 import Spake2Model.Gen.ProtoShape
 import Spake2Model.Gen.UtilArith
